@@ -472,7 +472,21 @@ def make_np_kernel(fname, family, cross):
 for family in ("win_only", "detrend0", "poly"):
     for cross in (False, True):
         _u = make_np_kernel(f"_stats_{family}_{'csd' if cross else 'auto'}_np", family, cross)
-        _u.runtime = dict(sample=kernel_sample(family, cross), call=kernel_call("speckit.core", _u.func), scale=kernel_scale, n_quick=12, n_thorough=120, n_search=60, skip_requires=("forall(0, K, lambda j: 0 <= starts[j] and starts[j] + L <= N)",))
+
+        def _smp(rng, i, _base=kernel_sample(family, cross)):
+            # the NumPy fallbacks process the segments in chunks: half of the samples have more segments than one
+            # (small) chunk holds
+            import numpy as np
+
+            a = _base(rng, i)
+            if i % 2:
+                N_ = len(a.get("x1", a.get("x")))
+                K_ = int(rng.integers(6, 14))
+                a["starts"] = rng.integers(0, N_ - a["L"] + 1, K_).astype(np.int64)
+                a["_chunk"] = int(rng.integers(2, 5))
+            return a
+
+        _u.runtime = dict(sample=_smp, call=kernel_call("speckit.core", _u.func), scale=kernel_scale, n_quick=12, n_thorough=120, n_search=60, skip_requires=("forall(0, K, lambda j: 0 <= starts[j] and starts[j] + L <= N)",))
         if family == "poly":
             # the vectorised projection (segs @ Q, alpha @ Q.T) needs three nested sum-extensionality
             # steps that the VC preparation does not find within its budget
@@ -489,3 +503,55 @@ _KINFO = {
     "trusted": ["np.linalg.qr(V, 'reduced'): Q^T Q = I and range(Q) = range(V) (used by C08 only through the callers' requirement on Q)"],
 }
 PROPERTY_INFO = {"C01": dict(_KINFO), "C07": dict(_KINFO), "C08": dict(_KINFO), "C14": dict(_KINFO), "C11": {}}
+
+
+def bounded_definition(tier, seed):
+    """C01 (bounded): the statistics delivered through the public single-bin entry point equal the property's own
+    definition evaluated directly - segment, subtract the least-squares polynomial of the detrend order (numpy lstsq, no
+    Q involved), window, DFT with exp(-i w n), average - for every order, both CPU backends, short and long segments.
+    This ties the basis Q that _build_Q hands to the kernels (proved only relative to the assumed QR contract) to the
+    definition."""
+    import numpy as np
+    from speckit import SpectrumAnalyzer
+
+    rng = np.random.default_rng(seed)
+    fails, n = [], 0
+    for L in (8, 16, 64, 200) if tier == "quick" else (4, 8, 16, 33, 64, 200, 400):
+        N = 12 * L + 5
+        x = 3 + rng.normal(size=N)
+        y = -2 + 0.5 * x + rng.normal(size=N)
+        for order in (-1, 0, 1, 2):
+            if L <= order + 1:
+                continue
+            for backend in ("numba", "numpy"):
+                for cross in (False, True):
+                    n += 1
+                    an = SpectrumAnalyzer([x, y] if cross else x, 10.0, olap=0.5, order=order, win="hann", backend=backend)
+                    r = an.compute_single_bin(10.0 * 2.37 / L, L=L)
+                    D = np.asarray(r.D[0])
+                    w = np.hanning(L)
+                    t = np.arange(L)
+                    e = np.exp(-1j * 2 * np.pi * (2.37 / L) * t)
+
+                    def dft(v):
+                        out = []
+                        for s in D:
+                            seg = v[s : s + L].astype(float)
+                            if order >= 0:
+                                A = np.vander(np.linspace(-1, 1, L), order + 1, increasing=True)
+                                seg = seg - A @ np.linalg.lstsq(A, seg, rcond=None)[0]
+                            out.append(np.sum(seg * w * e))
+                        return np.array(out)
+
+                    X = dft(x)
+                    Y = dft(y) if cross else X
+                    want = (np.mean(np.abs(X) ** 2), np.mean(np.abs(Y) ** 2), np.mean(X * np.conj(Y)))
+                    got = (float(r.XX[0]), float(r.YY[0]) if cross else float(r.XX[0]), complex(r.XY[0]) if cross else complex(r.XX[0]))
+                    sc = max(want[0], want[1])
+                    if abs(got[0] - want[0]) > 1e-8 * sc or abs(got[1] - want[1]) > 1e-8 * sc or abs(got[2] - want[2]) > 1e-8 * sc:
+                        fails.append({"label": "C01.definition", "input": {"L": L, "order": order, "backend": backend, "cross": cross}, "detail": f"XX={got[0]!r} (definition {want[0]!r}), XY={got[2]!r} (definition {want[2]!r})"})
+    return {"evaluations": n, "bound": "L in 8..200 (4..400 thorough) x orders -1..2 x {numba, numpy} x {auto, cross}, one fractional bin", "failures": fails[:5], "n_failures": len(fails)}
+
+
+BOUNDED = {"C01.definition": bounded_definition}
+PROPERTY_INFO["C01"]["bounded"] = ["C01.definition"]
